@@ -1,6 +1,7 @@
 package main
 
 import (
+	"go/constant"
 	"go/token"
 	"go/types"
 
@@ -420,35 +421,42 @@ func ruleMergeIter(r *Run) {
 			}
 		}
 	}
-	// return values: truth table over (heap empty, refill ok, source error)
-	for _, ret := range returnsOf(next) {
-		for _, lv := range phiLeaves(ret.Results[0]) {
-			popped := pop.Block().Dominates(ret.Block())
-			switch {
-			case isConstBool(lv, true):
-				if !popped {
+	// return values: truth table over (refill ok, source error), evaluated on the feasible paths
+	for _, refill := range []bool{false, true} {
+		for _, errNil := range []bool{false, true} {
+			hook := func(w *feWalker, st *feState, v ssa.Value) (constant.Value, bool) {
+				if b, ok := v.(*ssa.BinOp); ok && srcErr != nil {
+					if x, nn, ok := nilCheck(b); ok && x == ssa.Value(srcErr) {
+						return constant.MakeBool(nn != errNil), true
+					}
+				}
+				return nil, false
+			}
+			w := &feWalker{Fn: next, Assume: map[ssa.Value]constant.Value{srcNext: constant.MakeBool(refill)}, Hook: hook}
+			for _, e := range w.Run() {
+				if e.Cut || len(e.Results) != 1 {
+					continue
+				}
+				popped := false
+				for _, c := range e.State.calls {
+					if c.Call == ssa.CallInstruction(pop) {
+						popped = true
+					}
+				}
+				if !e.Results[0].Known {
 					good = false
-					on.Fail(r.pos(ret.Pos()), "returns true without having popped a record")
+					on.Fail(r.pos(e.Term.Pos()), "returns %s, which is not decided by (record popped, refill succeeded, source error)", describe(e.Results[0].V, 0))
+					continue
 				}
-			case isConstBool(lv, false):
-				if popped {
-					// allowed only when the source reported an error
-					okErr := false
-					if srcErr != nil {
-						for _, f := range factsAt(ret.Block()) {
-							if x, nn, ok := nilCheck(f.Cond); ok && x == ssa.Value(srcErr) && nn == f.Truth {
-								okErr = true
-							}
-						}
-					}
-					if !okErr {
-						good = false
-						on.Fail(r.pos(ret.Pos()), "returns false after a record was popped although the source did not fail: the record is lost")
-					}
+				got := constant.BoolVal(e.Results[0].C)
+				want := popped && (refill || errNil)
+				if srcErr == nil {
+					want = popped
 				}
-			default:
-				good = false
-				on.Fail(r.pos(ret.Pos()), "returns %s", describe(lv, 0))
+				if got != want {
+					good = false
+					on.Fail(r.pos(e.Term.Pos()), "with record popped=%v, refill ok=%v, source error nil=%v Next returns %v, expected %v", popped, refill, errNil, got, want)
+				}
 			}
 		}
 	}
